@@ -1,7 +1,7 @@
 #!/bin/bash
 # Runs every kept seeded change against the check of its own property (and extra checks given as "SEED:CHECK" args).
 cd /verif
-for d in seeded/C*-[a-p]; do
+for d in seeded/C*-[a-r]; do
   s=$(basename $d); id=${s%-*}; v=${s#*-}
   ./seedtest.sh $id $v $id quick > /dev/null 2>&1
   tail -1 $d/results.tsv | sed "s/^/$s\t/"
